@@ -181,7 +181,10 @@ func rulesC10(c *Ctx) {
 				}
 			}
 			c.Check("C10.c", "Complete raised in "+shortFn(fn.Name)+" only with zero allocated", cs.Call, alloc, "CompleteApplication raised without IsZero(sa.allocatedResource) (or a reset of it); facts: %v", p.FactStrings(st))
-		case func() bool { _, isId := unparen(evArg).(*ast.Ident); return isId && p.TypeName(p.TypeOf(evArg)) == "objects.applicationEvent" && !strings.HasSuffix(p.Src(evArg), "Application") }():
+		case func() bool {
+			_, isId := unparen(evArg).(*ast.Ident)
+			return isId && p.TypeName(p.TypeOf(evArg)) == "objects.applicationEvent" && !strings.HasSuffix(p.Src(evArg), "Application")
+		}():
 			// event carried by a variable: check every assignment of CompleteApplication to it
 			id := unparen(evArg).(*ast.Ident)
 			obj := p.ObjOf(id)
@@ -259,12 +262,12 @@ func rulesC10(c *Ctx) {
 			return out
 		}
 		need := map[string][]string{
-			"enter_Completed": {"objects.Application.executeTerminatedCallback", "objects.Application.cleanupAsks", "objects.Application.clearPlaceholderTimer", "objects.Application.setStateTimer"},
-			"enter_Failed":    {"objects.Application.executeTerminatedCallback", "objects.Application.cleanupAsks", "objects.Application.setStateTimer"},
-			"enter_Rejected":  {"objects.Application.setStateTimer"},
+			"enter_Completed":  {"objects.Application.executeTerminatedCallback", "objects.Application.cleanupAsks", "objects.Application.clearPlaceholderTimer", "objects.Application.setStateTimer"},
+			"enter_Failed":     {"objects.Application.executeTerminatedCallback", "objects.Application.cleanupAsks", "objects.Application.setStateTimer"},
+			"enter_Rejected":   {"objects.Application.setStateTimer"},
 			"enter_Completing": {"objects.Application.setStateTimer"},
-			"leave_state":     {"objects.Application.clearStateTimer"},
-			"enter_state":     {"objects.Application.OnStateChange"},
+			"leave_state":      {"objects.Application.clearStateTimer"},
+			"enter_state":      {"objects.Application.OnStateChange"},
 		}
 		for k, callees := range need {
 			lit := cbs[k]
@@ -378,8 +381,15 @@ func rulesC11(c *Ctx) {
 			}
 			b, ok := unparen(rs.Results[0]).(*ast.BinaryExpr)
 			shape := false
+			// `x <= max` or the flipped `max >= x`
+			var lhs ast.Expr
 			if ok && b.Op == tokLEQ && p.recvField(fn, b.Y, "objects.Queue.maxRunningApps") {
-				d := p.DefOf(T(b.X, st))
+				lhs = b.X
+			} else if ok && b.Op == tokGEQ && p.recvField(fn, b.X, "objects.Queue.maxRunningApps") {
+				lhs = b.Y
+			}
+			if lhs != nil {
+				d := p.DefOf(T(lhs, st))
 				mRun, mAll, mOne, onlyAdd := false, false, false, true
 				ast.Inspect(d.E, func(nn ast.Node) bool {
 					switch x := nn.(type) {
@@ -426,7 +436,9 @@ func rulesC11(c *Ctx) {
 	c.Rule("C11.b", "incRunningApps only from enter_Running (on a real entry), decRunningApps only from leave_Running (on a real exit); both and setAllocatingAccepted recurse to the direct parent; counters have confined writers")
 	if fn := c.MustFunc("C11.b", "objects.callbacks"); fn != nil {
 		cbs, _ := p.fsmCallbacks(fn)
-		inLit := func(lit *ast.FuncLit, n ast.Node) bool { return lit != nil && lit.Pos() <= n.Pos() && n.End() <= lit.End() }
+		inLit := func(lit *ast.FuncLit, n ast.Node) bool {
+			return lit != nil && lit.Pos() <= n.Pos() && n.End() <= lit.End()
+		}
 		for _, pr := range []struct{ callee, cb, fld string }{
 			{"objects.Queue.incRunningApps", "enter_Running", "Src"},
 			{"objects.Queue.decRunningApps", "leave_Running", "Dst"},
